@@ -87,6 +87,16 @@ def run(ctx):
                 continue
             src = ast.unparse(given)
             ok = src in ALLOWED_SOURCES
+            if not ok and isinstance(given, ast.Name) and cs.caller is not None and given.id not in cs.caller.params:
+                # a local alias: bound exactly once in the caller, to an allowed source, and never re-bound
+                stores = [n_ for n_ in ast.walk(cs.caller.node) if isinstance(n_, ast.Name) and n_.id == given.id
+                          and isinstance(n_.ctx, (ast.Store, ast.Del))]
+                binds = [n_ for n_ in ast.walk(cs.caller.node) if isinstance(n_, ast.Assign) and len(n_.targets) == 1
+                         and isinstance(n_.targets[0], ast.Name) and n_.targets[0].id == given.id]
+                if len(stores) == 1 and len(binds) == 1 and ast.unparse(binds[0].value) in ALLOWED_SOURCES \
+                        and binds[0].lineno < node.lineno and binds[0] in cs.caller.node.body:
+                    ok = True
+                    ob.note('%s forwards %s through the local %s' % (owner, ast.unparse(binds[0].value), given.id))
             if ok:
                 n_explicit += 1
             ob.require(ok, '%s passes testnet=%s to %s (must come unchanged from the wallet/node/version/arguments)'
